@@ -588,4 +588,261 @@ example : (U32x4.rotate_words_right .debug ⟨1#32, 2#32, 3#32, 4#32⟩ 5#32).is
 example : U32x4.rotate_words_right .release ⟨1#32, 2#32, 3#32, 4#32⟩ 5#32 = .ok ⟨4#32, 1#32, 2#32, 3#32⟩ := by rfl
 example : (U32x4.extract ⟨1#32, 2#32, 3#32, 4#32⟩ 4#64).isPanic = true := by decide
 
+/-! ## end to end: the REGENERATED methods against the lane-wise scalar meaning -/
+
+/-- **End to end (regenerated code = lane-wise scalar meaning).**  Every theorem of this file about a method of `u128x1`,
+    `u128x2`, `u32x4`, `u64x4`, `u32x4x4` (the contract case in both profiles, the `_total` / `_release` forms and the
+    `_panic` cases), restated with the method as REGENERATED from /repo/utils-simd/ppv-null/src/lib.rs on every run
+    (`CC.Gen.NullSrc.<Type>.<method>`, tools/inventory_null.py) in place of the hand-written model: only regenerated
+    definitions, the scalar meaning `CC.Null.Meaning.*` and the carrier structures of `CC.Null.Vocab` occur in the
+    statement.  Each conjunct is the like-named theorem above rewritten with its `CC.Src.src_null_*` equality
+    (conjuncts in the order of the theorems above; the two `rotr_lane` helper facts have no method and are omitted). -/
+theorem generated_matches_meaning :
+    (∀ (a : BitVec 128), CC.Gen.NullSrc.U128x1.new a = Meaning.U128x1.new a) ∧
+    (∀ (v : U128x1), CC.Gen.NullSrc.U128x1.clone v = v) ∧
+    (∀ (v : U128x1), CC.Gen.NullSrc.U128x1.into_inner v = Meaning.U128x1.into_inner v) ∧
+    (∀ (v : U128x1) (i : BitVec 128), CC.Gen.NullSrc.U128x1.rotate_right v i = Meaning.U128x1.rotate_right v (i.toNat % 2 ^ 32 % 128)) ∧
+    (∀ (v : U128x1) (i : BitVec 128), 1#128 ≤ i → i < 128#128 → CC.Gen.NullSrc.U128x1.rotate_right v i = Meaning.U128x1.rotate_right v i.toNat) ∧
+    (∀ (p : Profile) (xs : List (BitVec 128)), xs.length = 1 → CC.Gen.NullSrc.U128x1.load p xs = .ok (Meaning.U128x1.load xs)) ∧
+    (∀ (xs : List (BitVec 128)), xs.length ≠ 1 → (CC.Gen.NullSrc.U128x1.load .debug xs).isPanic = true) ∧
+    (∀ (xs : List (BitVec 128)), 1 ≤ xs.length → CC.Gen.NullSrc.U128x1.load .release xs = .ok (Meaning.U128x1.load xs)) ∧
+    ((CC.Gen.NullSrc.U128x1.load .release []).isPanic = true) ∧
+    (∀ (p : Profile) (v : U128x1) (xs : List (BitVec 128)), xs.length = 1 → CC.Gen.NullSrc.U128x1.xor_store p v xs = .ok (Meaning.U128x1.xor_store v xs)) ∧
+    (∀ (v : U128x1) (xs : List (BitVec 128)), xs.length ≠ 1 → (CC.Gen.NullSrc.U128x1.xor_store .debug v xs).isPanic = true) ∧
+    (∀ (v : U128x1) (xs : List (BitVec 128)), 1 ≤ xs.length → CC.Gen.NullSrc.U128x1.xor_store .release v xs = .ok (Meaning.U128x1.xor_store v xs ++ xs.drop 1)) ∧
+    (∀ (v : U128x1), (CC.Gen.NullSrc.U128x1.xor_store .release v []).isPanic = true) ∧
+    (∀ (p : Profile) (v : U128x1), CC.Gen.NullSrc.U128x1.swap1 p v = .ok (Meaning.U128x1.swap 1 v)) ∧
+    (∀ (p : Profile) (v : U128x1), CC.Gen.NullSrc.U128x1.swap2 p v = .ok (Meaning.U128x1.swap 2 v)) ∧
+    (∀ (p : Profile) (v : U128x1), CC.Gen.NullSrc.U128x1.swap4 p v = .ok (Meaning.U128x1.swap 4 v)) ∧
+    (∀ (p : Profile) (v : U128x1), CC.Gen.NullSrc.U128x1.swap8 p v = .ok (Meaning.U128x1.swap 8 v)) ∧
+    (∀ (p : Profile) (v : U128x1), CC.Gen.NullSrc.U128x1.swap16 p v = .ok (Meaning.U128x1.swap 16 v)) ∧
+    (∀ (p : Profile) (v : U128x1), CC.Gen.NullSrc.U128x1.swap32 p v = .ok (Meaning.U128x1.swap 32 v)) ∧
+    (∀ (p : Profile) (v : U128x1), CC.Gen.NullSrc.U128x1.swap64 p v = .ok (Meaning.U128x1.swap 64 v)) ∧
+    (∀ (v r : U128x1), CC.Gen.NullSrc.U128x1.andnot v r = Meaning.U128x1.andnot v r) ∧
+    (∀ (p : Profile) (v : U128x1), CC.Gen.NullSrc.U128x1.extract p v 0#32 = .ok (Meaning.U128x1.extract v 0)) ∧
+    (∀ (v : U128x1) (i : BitVec 32), i ≠ 0#32 → (CC.Gen.NullSrc.U128x1.extract .debug v i).isPanic = true) ∧
+    (∀ (v : U128x1) (i : BitVec 32), CC.Gen.NullSrc.U128x1.extract .release v i = .ok (Meaning.U128x1.extract v 0)) ∧
+    (∀ (v r : U128x1), CC.Gen.NullSrc.U128x1.add_assign v r = Meaning.U128x1.add v r) ∧
+    (∀ (v r : U128x1), CC.Gen.NullSrc.U128x1.bitxor_assign v r = Meaning.U128x1.xor v r) ∧
+    (∀ (v r : U128x1), CC.Gen.NullSrc.U128x1.bitxor v r = Meaning.U128x1.xor v r) ∧
+    (∀ (v r : U128x1), CC.Gen.NullSrc.U128x1.bitand v r = Meaning.U128x1.and v r) ∧
+    (∀ (v : U128x1), CC.Gen.NullSrc.U128x1.not v = Meaning.U128x1.not v) ∧
+    (∀ (a b : BitVec 128), CC.Gen.NullSrc.U128x2.new a b = Meaning.U128x2.new a b) ∧
+    (∀ (v : U128x2), CC.Gen.NullSrc.U128x2.clone v = v) ∧
+    (∀ (v : U128x2) (i : BitVec 128), CC.Gen.NullSrc.U128x2.rotate_right v i = Meaning.U128x2.rotate_right v (i.toNat % 2 ^ 32 % 128)) ∧
+    (∀ (v : U128x2) (i : BitVec 128), 1#128 ≤ i → i < 128#128 → CC.Gen.NullSrc.U128x2.rotate_right v i = Meaning.U128x2.rotate_right v i.toNat) ∧
+    (∀ (p : Profile) (xs : List (BitVec 128)), xs.length = 2 → CC.Gen.NullSrc.U128x2.load p xs = .ok (Meaning.U128x2.load xs)) ∧
+    (∀ (xs : List (BitVec 128)), xs.length ≠ 2 → (CC.Gen.NullSrc.U128x2.load .debug xs).isPanic = true) ∧
+    (∀ (xs : List (BitVec 128)), 2 ≤ xs.length → CC.Gen.NullSrc.U128x2.load .release xs = .ok (Meaning.U128x2.load xs)) ∧
+    (∀ (xs : List (BitVec 128)), xs.length < 2 → (CC.Gen.NullSrc.U128x2.load .release xs).isPanic = true) ∧
+    (∀ (p : Profile) (v : U128x2) (xs : List (BitVec 128)), xs.length = 2 → CC.Gen.NullSrc.U128x2.xor_store p v xs = .ok (Meaning.U128x2.xor_store v xs)) ∧
+    (∀ (v : U128x2) (xs : List (BitVec 128)), xs.length ≠ 2 → (CC.Gen.NullSrc.U128x2.xor_store .debug v xs).isPanic = true) ∧
+    (∀ (v : U128x2) (xs : List (BitVec 128)), 2 ≤ xs.length → CC.Gen.NullSrc.U128x2.xor_store .release v xs = .ok (Meaning.U128x2.xor_store v xs ++ xs.drop 2)) ∧
+    (∀ (v : U128x2) (xs : List (BitVec 128)), xs.length < 2 → (CC.Gen.NullSrc.U128x2.xor_store .release v xs).isPanic = true) ∧
+    (∀ (v : U128x2) (i : BitVec 32), i < 2#32 → CC.Gen.NullSrc.U128x2.extract v i = .ok (Meaning.U128x2.extract v i.toNat)) ∧
+    (∀ (v : U128x2) (i : BitVec 32), 2#32 ≤ i → (CC.Gen.NullSrc.U128x2.extract v i).isPanic = true) ∧
+    (∀ (v r : U128x2), CC.Gen.NullSrc.U128x2.andnot v r = Meaning.U128x2.andnot v r) ∧
+    (∀ (v r : U128x2), CC.Gen.NullSrc.U128x2.add_assign v r = Meaning.U128x2.add v r) ∧
+    (∀ (v r : U128x2), CC.Gen.NullSrc.U128x2.bitxor_assign v r = Meaning.U128x2.xor v r) ∧
+    (∀ (v r : U128x2), CC.Gen.NullSrc.U128x2.bitand v r = Meaning.U128x2.and v r) ∧
+    (∀ (v r : U128x2), CC.Gen.NullSrc.U128x2.bitor v r = Meaning.U128x2.or v r) ∧
+    (∀ (v : U128x2), CC.Gen.NullSrc.U128x2.not v = Meaning.U128x2.not v) ∧
+    (∀ (a b c d : BitVec 32), CC.Gen.NullSrc.U32x4.new a b c d = Meaning.U32x4.new a b c d) ∧
+    (∀ (v : U32x4), CC.Gen.NullSrc.U32x4.clone v = v) ∧
+    (∀ (x : BitVec 32), CC.Gen.NullSrc.U32x4.splat x = Meaning.U32x4.splat x) ∧
+    (∀ (v ii : U32x4), CC.Gen.NullSrc.U32x4.rotate_right v ii = (v, Meaning.U32x4.rotate_right v ⟨(ii.a.setWidth 32).setWidth 32, (ii.b.setWidth 32).setWidth 32, (ii.c.setWidth 32).setWidth 32, (ii.d.setWidth 32).setWidth 32⟩)) ∧
+    (∀ (v ii : U32x4), (1#32 ≤ ii.a ∧ ii.a < 32#32) → (1#32 ≤ ii.b ∧ ii.b < 32#32) → (1#32 ≤ ii.c ∧ ii.c < 32#32) → (1#32 ≤ ii.d ∧ ii.d < 32#32) → CC.Gen.NullSrc.U32x4.rotate_right v ii = (v, Meaning.U32x4.rotate_right v ii)) ∧
+    (∀ (p : Profile) (xs : List (BitVec 32)), xs.length = 4 → CC.Gen.NullSrc.U32x4.from_slice_unaligned p xs = .ok (Meaning.U32x4.from_slice_unaligned xs)) ∧
+    (∀ (xs : List (BitVec 32)), xs.length ≠ 4 → (CC.Gen.NullSrc.U32x4.from_slice_unaligned .debug xs).isPanic = true) ∧
+    (∀ (xs : List (BitVec 32)), 4 ≤ xs.length → CC.Gen.NullSrc.U32x4.from_slice_unaligned .release xs = .ok (Meaning.U32x4.from_slice_unaligned xs)) ∧
+    (∀ (xs : List (BitVec 32)), xs.length < 4 → (CC.Gen.NullSrc.U32x4.from_slice_unaligned .release xs).isPanic = true) ∧
+    (∀ (p : Profile) (v : U32x4) (xs : List (BitVec 32)), xs.length = 4 → CC.Gen.NullSrc.U32x4.write_to_slice_unaligned p v xs = .ok (Meaning.U32x4.write_to_slice_unaligned v)) ∧
+    (∀ (v : U32x4) (xs : List (BitVec 32)), xs.length ≠ 4 → (CC.Gen.NullSrc.U32x4.write_to_slice_unaligned .debug v xs).isPanic = true) ∧
+    (∀ (v : U32x4) (xs : List (BitVec 32)), 4 ≤ xs.length → CC.Gen.NullSrc.U32x4.write_to_slice_unaligned .release v xs = .ok (Meaning.U32x4.write_to_slice_unaligned v ++ xs.drop 4)) ∧
+    (∀ (v : U32x4) (xs : List (BitVec 32)), xs.length < 4 → (CC.Gen.NullSrc.U32x4.write_to_slice_unaligned .release v xs).isPanic = true) ∧
+    (∀ (v : U32x4) (i : BitVec 64), i < 4#64 → CC.Gen.NullSrc.U32x4.extract v i = .ok (Meaning.U32x4.extract v i.toNat)) ∧
+    (∀ (v : U32x4) (i : BitVec 64), 4#64 ≤ i → (CC.Gen.NullSrc.U32x4.extract v i).isPanic = true) ∧
+    (∀ (v : U32x4) (i : BitVec 64) (x : BitVec 32), i < 4#64 → CC.Gen.NullSrc.U32x4.replace v i x = .ok (Meaning.U32x4.replace v i.toNat x)) ∧
+    (∀ (v : U32x4) (i : BitVec 64) (x : BitVec 32), 4#64 ≤ i → (CC.Gen.NullSrc.U32x4.replace v i x).isPanic = true) ∧
+    (∀ (v r : U32x4), CC.Gen.NullSrc.U32x4.add_assign v r = Meaning.U32x4.add v r) ∧
+    (∀ (v r : U32x4), CC.Gen.NullSrc.U32x4.bitxor_assign v r = Meaning.U32x4.xor v r) ∧
+    (∀ (v r : U32x4), CC.Gen.NullSrc.U32x4.add v r = Meaning.U32x4.add v r) ∧
+    (∀ (v r : U32x4), CC.Gen.NullSrc.U32x4.bitxor v r = Meaning.U32x4.xor v r) ∧
+    (∀ (v r : U32x4), CC.Gen.NullSrc.U32x4.bitor v r = Meaning.U32x4.or v r) ∧
+    (∀ (v r : U32x4), CC.Gen.NullSrc.U32x4.bitand v r = Meaning.U32x4.and v r) ∧
+    (∀ (p : Profile) (v : U32x4) (i : BitVec 32), i < 4#32 → CC.Gen.NullSrc.U32x4.rotate_words_right p v i = .ok (Meaning.U32x4.rotate_words_right v i.toNat)) ∧
+    (∀ (v : U32x4) (i : BitVec 32), 4#32 ≤ i → (CC.Gen.NullSrc.U32x4.rotate_words_right .debug v i).isPanic = true) ∧
+    (∀ (v : U32x4) (i : BitVec 32), CC.Gen.NullSrc.U32x4.rotate_words_right .release v i = .ok (Meaning.U32x4.rotate_words_right v (i.toNat % 4))) ∧
+    (∀ (p : Profile) (v : U32x4) (i : BitVec 32), 1#32 ≤ i → i < 32#32 → CC.Gen.NullSrc.U32x4.splat_rotate_right p v i = .ok (Meaning.U32x4.splat_rotate_right v i.toNat)) ∧
+    (∀ (v : U32x4) (i : BitVec 32), (i = 0#32 ∨ 32#32 ≤ i) → (CC.Gen.NullSrc.U32x4.splat_rotate_right .debug v i).isPanic = true) ∧
+    (∀ (v : U32x4) (i : BitVec 32), CC.Gen.NullSrc.U32x4.splat_rotate_right .release v i = .ok (Meaning.U32x4.splat_rotate_right v (i.toNat % 32))) ∧
+    (∀ (a b c d : BitVec 64), CC.Gen.NullSrc.U64x4.new a b c d = Meaning.U64x4.new a b c d) ∧
+    (∀ (v : U64x4), CC.Gen.NullSrc.U64x4.clone v = v) ∧
+    (∀ (x : BitVec 64), CC.Gen.NullSrc.U64x4.splat x = Meaning.U64x4.splat x) ∧
+    (∀ (v ii : U64x4), CC.Gen.NullSrc.U64x4.rotate_right v ii = (v, Meaning.U64x4.rotate_right v ⟨(ii.a.setWidth 32).setWidth 64, (ii.b.setWidth 32).setWidth 64, (ii.c.setWidth 32).setWidth 64, (ii.d.setWidth 32).setWidth 64⟩)) ∧
+    (∀ (v ii : U64x4), (1#64 ≤ ii.a ∧ ii.a < 64#64) → (1#64 ≤ ii.b ∧ ii.b < 64#64) → (1#64 ≤ ii.c ∧ ii.c < 64#64) → (1#64 ≤ ii.d ∧ ii.d < 64#64) → CC.Gen.NullSrc.U64x4.rotate_right v ii = (v, Meaning.U64x4.rotate_right v ii)) ∧
+    (∀ (p : Profile) (xs : List (BitVec 64)), xs.length = 4 → CC.Gen.NullSrc.U64x4.from_slice_unaligned p xs = .ok (Meaning.U64x4.from_slice_unaligned xs)) ∧
+    (∀ (xs : List (BitVec 64)), xs.length ≠ 4 → (CC.Gen.NullSrc.U64x4.from_slice_unaligned .debug xs).isPanic = true) ∧
+    (∀ (xs : List (BitVec 64)), 4 ≤ xs.length → CC.Gen.NullSrc.U64x4.from_slice_unaligned .release xs = .ok (Meaning.U64x4.from_slice_unaligned xs)) ∧
+    (∀ (xs : List (BitVec 64)), xs.length < 4 → (CC.Gen.NullSrc.U64x4.from_slice_unaligned .release xs).isPanic = true) ∧
+    (∀ (p : Profile) (v : U64x4) (xs : List (BitVec 64)), xs.length = 4 → CC.Gen.NullSrc.U64x4.write_to_slice_unaligned p v xs = .ok (Meaning.U64x4.write_to_slice_unaligned v)) ∧
+    (∀ (v : U64x4) (xs : List (BitVec 64)), xs.length ≠ 4 → (CC.Gen.NullSrc.U64x4.write_to_slice_unaligned .debug v xs).isPanic = true) ∧
+    (∀ (v : U64x4) (xs : List (BitVec 64)), 4 ≤ xs.length → CC.Gen.NullSrc.U64x4.write_to_slice_unaligned .release v xs = .ok (Meaning.U64x4.write_to_slice_unaligned v ++ xs.drop 4)) ∧
+    (∀ (v : U64x4) (xs : List (BitVec 64)), xs.length < 4 → (CC.Gen.NullSrc.U64x4.write_to_slice_unaligned .release v xs).isPanic = true) ∧
+    (∀ (v : U64x4) (i : BitVec 64), i < 4#64 → CC.Gen.NullSrc.U64x4.extract v i = .ok (Meaning.U64x4.extract v i.toNat)) ∧
+    (∀ (v : U64x4) (i : BitVec 64), 4#64 ≤ i → (CC.Gen.NullSrc.U64x4.extract v i).isPanic = true) ∧
+    (∀ (v : U64x4) (i : BitVec 64) (x : BitVec 64), i < 4#64 → CC.Gen.NullSrc.U64x4.replace v i x = .ok (Meaning.U64x4.replace v i.toNat x)) ∧
+    (∀ (v : U64x4) (i : BitVec 64) (x : BitVec 64), 4#64 ≤ i → (CC.Gen.NullSrc.U64x4.replace v i x).isPanic = true) ∧
+    (∀ (v r : U64x4), CC.Gen.NullSrc.U64x4.add_assign v r = Meaning.U64x4.add v r) ∧
+    (∀ (v r : U64x4), CC.Gen.NullSrc.U64x4.bitxor_assign v r = Meaning.U64x4.xor v r) ∧
+    (∀ (v r : U64x4), CC.Gen.NullSrc.U64x4.add v r = Meaning.U64x4.add v r) ∧
+    (∀ (v r : U64x4), CC.Gen.NullSrc.U64x4.bitxor v r = Meaning.U64x4.xor v r) ∧
+    (∀ (v r : U64x4), CC.Gen.NullSrc.U64x4.bitor v r = Meaning.U64x4.or v r) ∧
+    (∀ (v r : U64x4), CC.Gen.NullSrc.U64x4.bitand v r = Meaning.U64x4.and v r) ∧
+    (∀ (p : Profile) (v : U64x4) (i : BitVec 32), i < 4#32 → CC.Gen.NullSrc.U64x4.rotate_words_right p v i = .ok (Meaning.U64x4.rotate_words_right v i.toNat)) ∧
+    (∀ (v : U64x4) (i : BitVec 32), 4#32 ≤ i → (CC.Gen.NullSrc.U64x4.rotate_words_right .debug v i).isPanic = true) ∧
+    (∀ (v : U64x4) (i : BitVec 32), CC.Gen.NullSrc.U64x4.rotate_words_right .release v i = .ok (Meaning.U64x4.rotate_words_right v (i.toNat % 4))) ∧
+    (∀ (p : Profile) (v : U64x4) (i : BitVec 32), 1#32 ≤ i → i < 64#32 → CC.Gen.NullSrc.U64x4.splat_rotate_right p v i = .ok (Meaning.U64x4.splat_rotate_right v i.toNat)) ∧
+    (∀ (v : U64x4) (i : BitVec 32), (i = 0#32 ∨ 64#32 ≤ i) → (CC.Gen.NullSrc.U64x4.splat_rotate_right .debug v i).isPanic = true) ∧
+    (∀ (v : U64x4) (i : BitVec 32), CC.Gen.NullSrc.U64x4.splat_rotate_right .release v i = .ok (Meaning.U64x4.splat_rotate_right v (i.toNat % 64))) ∧
+    (∀ (a b c d : U32x4), CC.Gen.NullSrc.U32x4x4.from_ (a, b, c, d) = Meaning.U32x4x4.from_ a b c d) ∧
+    (∀ (a : U32x4), CC.Gen.NullSrc.U32x4x4.splat a = Meaning.U32x4x4.splat a) ∧
+    (∀ (v : U32x4x4), CC.Gen.NullSrc.U32x4x4.into_parts v = Meaning.U32x4x4.into_parts v) ∧
+    (∀ (v : U32x4x4), CC.Gen.NullSrc.U32x4x4.clone v = v) ∧
+    (∀ (v r : U32x4x4), CC.Gen.NullSrc.U32x4x4.bitxor v r = Meaning.U32x4x4.xor v r) ∧
+    (∀ (v r : U32x4x4), CC.Gen.NullSrc.U32x4x4.bitor v r = Meaning.U32x4x4.or v r) ∧
+    (∀ (v r : U32x4x4), CC.Gen.NullSrc.U32x4x4.bitand v r = Meaning.U32x4x4.and v r) ∧
+    (∀ (v r : U32x4x4), CC.Gen.NullSrc.U32x4x4.add v r = Meaning.U32x4x4.add v r) ∧
+    (∀ (v r : U32x4x4), CC.Gen.NullSrc.U32x4x4.bitxor_assign v r = Meaning.U32x4x4.xor v r) ∧
+    (∀ (v r : U32x4x4), CC.Gen.NullSrc.U32x4x4.add_assign v r = Meaning.U32x4x4.add v r) ∧
+    (∀ (p : Profile) (v : U32x4x4) (i : BitVec 32), i < 4#32 → CC.Gen.NullSrc.U32x4x4.rotate_words_right p v i = .ok (Meaning.U32x4x4.rotate_words_right v i.toNat)) ∧
+    (∀ (v : U32x4x4) (i : BitVec 32), 4#32 ≤ i → (CC.Gen.NullSrc.U32x4x4.rotate_words_right .debug v i).isPanic = true) ∧
+    (∀ (v : U32x4x4) (i : BitVec 32), CC.Gen.NullSrc.U32x4x4.rotate_words_right .release v i = .ok (Meaning.U32x4x4.rotate_words_right v (i.toNat % 4))) ∧
+    (∀ (p : Profile) (v : U32x4x4) (i : BitVec 32), 1#32 ≤ i → i < 32#32 → CC.Gen.NullSrc.U32x4x4.splat_rotate_right p v i = .ok (Meaning.U32x4x4.splat_rotate_right v i.toNat)) ∧
+    (∀ (v : U32x4x4) (i : BitVec 32), (i = 0#32 ∨ 32#32 ≤ i) → (CC.Gen.NullSrc.U32x4x4.splat_rotate_right .debug v i).isPanic = true) ∧
+    (∀ (v : U32x4x4) (i : BitVec 32), CC.Gen.NullSrc.U32x4x4.splat_rotate_right .release v i = .ok (Meaning.U32x4x4.splat_rotate_right v (i.toNat % 32))) :=
+  ⟨(by rw [← CC.Src.src_null_u128x1_new]; exact @u128x1_new),
+   (by rw [← CC.Src.src_null_u128x1_clone]; exact @u128x1_clone),
+   (by rw [← CC.Src.src_null_u128x1_into_inner]; exact @u128x1_into_inner),
+   (by rw [← CC.Src.src_null_u128x1_rotate_right]; exact @u128x1_rotate_right_total),
+   (by rw [← CC.Src.src_null_u128x1_rotate_right]; exact @u128x1_rotate_right),
+   (by rw [← CC.Src.src_null_u128x1_load]; exact @u128x1_load),
+   (by rw [← CC.Src.src_null_u128x1_load]; exact @u128x1_load_debug_panic),
+   (by rw [← CC.Src.src_null_u128x1_load]; exact @u128x1_load_release),
+   (by rw [← CC.Src.src_null_u128x1_load]; exact @u128x1_load_release_panic),
+   (by rw [← CC.Src.src_null_u128x1_xor_store]; exact @u128x1_xor_store),
+   (by rw [← CC.Src.src_null_u128x1_xor_store]; exact @u128x1_xor_store_debug_panic),
+   (by rw [← CC.Src.src_null_u128x1_xor_store]; exact @u128x1_xor_store_release),
+   (by rw [← CC.Src.src_null_u128x1_xor_store]; exact @u128x1_xor_store_release_panic),
+   (by rw [← CC.Src.src_null_u128x1_swap1]; exact @u128x1_swap1),
+   (by rw [← CC.Src.src_null_u128x1_swap2]; exact @u128x1_swap2),
+   (by rw [← CC.Src.src_null_u128x1_swap4]; exact @u128x1_swap4),
+   (by rw [← CC.Src.src_null_u128x1_swap8]; exact @u128x1_swap8),
+   (by rw [← CC.Src.src_null_u128x1_swap16]; exact @u128x1_swap16),
+   (by rw [← CC.Src.src_null_u128x1_swap32]; exact @u128x1_swap32),
+   (by rw [← CC.Src.src_null_u128x1_swap64]; exact @u128x1_swap64),
+   (by rw [← CC.Src.src_null_u128x1_andnot]; exact @u128x1_andnot),
+   (by rw [← CC.Src.src_null_u128x1_extract]; exact @u128x1_extract),
+   (by rw [← CC.Src.src_null_u128x1_extract]; exact @u128x1_extract_debug_panic),
+   (by rw [← CC.Src.src_null_u128x1_extract]; exact @u128x1_extract_release),
+   (by rw [← CC.Src.src_null_u128x1_add_assign]; exact @u128x1_add_assign),
+   (by rw [← CC.Src.src_null_u128x1_bitxor_assign]; exact @u128x1_bitxor_assign),
+   (by rw [← CC.Src.src_null_u128x1_bitxor]; exact @u128x1_bitxor),
+   (by rw [← CC.Src.src_null_u128x1_bitand]; exact @u128x1_bitand),
+   (by rw [← CC.Src.src_null_u128x1_not]; exact @u128x1_not),
+   (by rw [← CC.Src.src_null_u128x2_new]; exact @u128x2_new),
+   (by rw [← CC.Src.src_null_u128x2_clone]; exact @u128x2_clone),
+   (by rw [← CC.Src.src_null_u128x2_rotate_right]; exact @u128x2_rotate_right_total),
+   (by rw [← CC.Src.src_null_u128x2_rotate_right]; exact @u128x2_rotate_right),
+   (by rw [← CC.Src.src_null_u128x2_load]; exact @u128x2_load),
+   (by rw [← CC.Src.src_null_u128x2_load]; exact @u128x2_load_debug_panic),
+   (by rw [← CC.Src.src_null_u128x2_load]; exact @u128x2_load_release),
+   (by rw [← CC.Src.src_null_u128x2_load]; exact @u128x2_load_release_panic),
+   (by rw [← CC.Src.src_null_u128x2_xor_store]; exact @u128x2_xor_store),
+   (by rw [← CC.Src.src_null_u128x2_xor_store]; exact @u128x2_xor_store_debug_panic),
+   (by rw [← CC.Src.src_null_u128x2_xor_store]; exact @u128x2_xor_store_release),
+   (by rw [← CC.Src.src_null_u128x2_xor_store]; exact @u128x2_xor_store_release_panic),
+   (by rw [← CC.Src.src_null_u128x2_extract]; exact @u128x2_extract),
+   (by rw [← CC.Src.src_null_u128x2_extract]; exact @u128x2_extract_panic),
+   (by rw [← CC.Src.src_null_u128x2_andnot]; exact @u128x2_andnot),
+   (by rw [← CC.Src.src_null_u128x2_add_assign]; exact @u128x2_add_assign),
+   (by rw [← CC.Src.src_null_u128x2_bitxor_assign]; exact @u128x2_bitxor_assign),
+   (by rw [← CC.Src.src_null_u128x2_bitand]; exact @u128x2_bitand),
+   (by rw [← CC.Src.src_null_u128x2_bitor]; exact @u128x2_bitor),
+   (by rw [← CC.Src.src_null_u128x2_not]; exact @u128x2_not),
+   (by rw [← CC.Src.src_null_u32x4_new]; exact @u32x4_new),
+   (by rw [← CC.Src.src_null_u32x4_clone]; exact @u32x4_clone),
+   (by rw [← CC.Src.src_null_u32x4_splat]; exact @u32x4_splat),
+   (by rw [← CC.Src.src_null_u32x4_rotate_right]; exact @u32x4_rotate_right_total),
+   (by rw [← CC.Src.src_null_u32x4_rotate_right]; exact @u32x4_rotate_right),
+   (by rw [← CC.Src.src_null_u32x4_from_slice_unaligned]; exact @u32x4_from_slice_unaligned),
+   (by rw [← CC.Src.src_null_u32x4_from_slice_unaligned]; exact @u32x4_from_slice_unaligned_debug_panic),
+   (by rw [← CC.Src.src_null_u32x4_from_slice_unaligned]; exact @u32x4_from_slice_unaligned_release),
+   (by rw [← CC.Src.src_null_u32x4_from_slice_unaligned]; exact @u32x4_from_slice_unaligned_release_panic),
+   (by rw [← CC.Src.src_null_u32x4_write_to_slice_unaligned]; exact @u32x4_write_to_slice_unaligned),
+   (by rw [← CC.Src.src_null_u32x4_write_to_slice_unaligned]; exact @u32x4_write_to_slice_unaligned_debug_panic),
+   (by rw [← CC.Src.src_null_u32x4_write_to_slice_unaligned]; exact @u32x4_write_to_slice_unaligned_release),
+   (by rw [← CC.Src.src_null_u32x4_write_to_slice_unaligned]; exact @u32x4_write_to_slice_unaligned_release_panic),
+   (by rw [← CC.Src.src_null_u32x4_extract]; exact @u32x4_extract),
+   (by rw [← CC.Src.src_null_u32x4_extract]; exact @u32x4_extract_panic),
+   (by rw [← CC.Src.src_null_u32x4_replace]; exact @u32x4_replace),
+   (by rw [← CC.Src.src_null_u32x4_replace]; exact @u32x4_replace_panic),
+   (by rw [← CC.Src.src_null_u32x4_add_assign]; exact @u32x4_add_assign),
+   (by rw [← CC.Src.src_null_u32x4_bitxor_assign]; exact @u32x4_bitxor_assign),
+   (by rw [← CC.Src.src_null_u32x4_add]; exact @u32x4_add),
+   (by rw [← CC.Src.src_null_u32x4_bitxor]; exact @u32x4_bitxor),
+   (by rw [← CC.Src.src_null_u32x4_bitor]; exact @u32x4_bitor),
+   (by rw [← CC.Src.src_null_u32x4_bitand]; exact @u32x4_bitand),
+   (by rw [← CC.Src.src_null_u32x4_rotate_words_right]; exact @u32x4_rotate_words_right),
+   (by rw [← CC.Src.src_null_u32x4_rotate_words_right]; exact @u32x4_rotate_words_right_debug_panic),
+   (by rw [← CC.Src.src_null_u32x4_rotate_words_right]; exact @u32x4_rotate_words_right_release),
+   (by rw [← CC.Src.src_null_u32x4_splat_rotate_right]; exact @u32x4_splat_rotate_right),
+   (by rw [← CC.Src.src_null_u32x4_splat_rotate_right]; exact @u32x4_splat_rotate_right_debug_panic),
+   (by rw [← CC.Src.src_null_u32x4_splat_rotate_right]; exact @u32x4_splat_rotate_right_release),
+   (by rw [← CC.Src.src_null_u64x4_new]; exact @u64x4_new),
+   (by rw [← CC.Src.src_null_u64x4_clone]; exact @u64x4_clone),
+   (by rw [← CC.Src.src_null_u64x4_splat]; exact @u64x4_splat),
+   (by rw [← CC.Src.src_null_u64x4_rotate_right]; exact @u64x4_rotate_right_total),
+   (by rw [← CC.Src.src_null_u64x4_rotate_right]; exact @u64x4_rotate_right),
+   (by rw [← CC.Src.src_null_u64x4_from_slice_unaligned]; exact @u64x4_from_slice_unaligned),
+   (by rw [← CC.Src.src_null_u64x4_from_slice_unaligned]; exact @u64x4_from_slice_unaligned_debug_panic),
+   (by rw [← CC.Src.src_null_u64x4_from_slice_unaligned]; exact @u64x4_from_slice_unaligned_release),
+   (by rw [← CC.Src.src_null_u64x4_from_slice_unaligned]; exact @u64x4_from_slice_unaligned_release_panic),
+   (by rw [← CC.Src.src_null_u64x4_write_to_slice_unaligned]; exact @u64x4_write_to_slice_unaligned),
+   (by rw [← CC.Src.src_null_u64x4_write_to_slice_unaligned]; exact @u64x4_write_to_slice_unaligned_debug_panic),
+   (by rw [← CC.Src.src_null_u64x4_write_to_slice_unaligned]; exact @u64x4_write_to_slice_unaligned_release),
+   (by rw [← CC.Src.src_null_u64x4_write_to_slice_unaligned]; exact @u64x4_write_to_slice_unaligned_release_panic),
+   (by rw [← CC.Src.src_null_u64x4_extract]; exact @u64x4_extract),
+   (by rw [← CC.Src.src_null_u64x4_extract]; exact @u64x4_extract_panic),
+   (by rw [← CC.Src.src_null_u64x4_replace]; exact @u64x4_replace),
+   (by rw [← CC.Src.src_null_u64x4_replace]; exact @u64x4_replace_panic),
+   (by rw [← CC.Src.src_null_u64x4_add_assign]; exact @u64x4_add_assign),
+   (by rw [← CC.Src.src_null_u64x4_bitxor_assign]; exact @u64x4_bitxor_assign),
+   (by rw [← CC.Src.src_null_u64x4_add]; exact @u64x4_add),
+   (by rw [← CC.Src.src_null_u64x4_bitxor]; exact @u64x4_bitxor),
+   (by rw [← CC.Src.src_null_u64x4_bitor]; exact @u64x4_bitor),
+   (by rw [← CC.Src.src_null_u64x4_bitand]; exact @u64x4_bitand),
+   (by rw [← CC.Src.src_null_u64x4_rotate_words_right]; exact @u64x4_rotate_words_right),
+   (by rw [← CC.Src.src_null_u64x4_rotate_words_right]; exact @u64x4_rotate_words_right_debug_panic),
+   (by rw [← CC.Src.src_null_u64x4_rotate_words_right]; exact @u64x4_rotate_words_right_release),
+   (by rw [← CC.Src.src_null_u64x4_splat_rotate_right]; exact @u64x4_splat_rotate_right),
+   (by rw [← CC.Src.src_null_u64x4_splat_rotate_right]; exact @u64x4_splat_rotate_right_debug_panic),
+   (by rw [← CC.Src.src_null_u64x4_splat_rotate_right]; exact @u64x4_splat_rotate_right_release),
+   (by rw [← CC.Src.src_null_u32x4x4_from]; exact @u32x4x4_from),
+   (by rw [← CC.Src.src_null_u32x4x4_splat]; exact @u32x4x4_splat),
+   (by rw [← CC.Src.src_null_u32x4x4_into_parts]; exact @u32x4x4_into_parts),
+   (by rw [← CC.Src.src_null_u32x4x4_clone]; exact @u32x4x4_clone),
+   (by rw [← CC.Src.src_null_u32x4x4_bitxor]; exact @u32x4x4_bitxor),
+   (by rw [← CC.Src.src_null_u32x4x4_bitor]; exact @u32x4x4_bitor),
+   (by rw [← CC.Src.src_null_u32x4x4_bitand]; exact @u32x4x4_bitand),
+   (by rw [← CC.Src.src_null_u32x4x4_add]; exact @u32x4x4_add),
+   (by rw [← CC.Src.src_null_u32x4x4_bitxor_assign]; exact @u32x4x4_bitxor_assign),
+   (by rw [← CC.Src.src_null_u32x4x4_add_assign]; exact @u32x4x4_add_assign),
+   (by rw [← CC.Src.src_null_u32x4x4_rotate_words_right]; exact @u32x4x4_rotate_words_right),
+   (by rw [← CC.Src.src_null_u32x4x4_rotate_words_right]; exact @u32x4x4_rotate_words_right_debug_panic),
+   (by rw [← CC.Src.src_null_u32x4x4_rotate_words_right]; exact @u32x4x4_rotate_words_right_release),
+   (by rw [← CC.Src.src_null_u32x4x4_splat_rotate_right]; exact @u32x4x4_splat_rotate_right),
+   (by rw [← CC.Src.src_null_u32x4x4_splat_rotate_right]; exact @u32x4x4_splat_rotate_right_debug_panic),
+   (by rw [← CC.Src.src_null_u32x4x4_splat_rotate_right]; exact @u32x4x4_splat_rotate_right_release)⟩
+
 end CC.Thm.C19
